@@ -122,6 +122,8 @@ func init() {
 			ruleDispatchTable(w, r, v2)
 			ruleEqSize(w, r, nt)
 			ruleHashEq(w, r, nt)
+			ruleNodeCompare(w, r, nt)
+			ruleHashInjective(w, r, nt)
 			ruleTolerance(w, r, nt)
 			ruleOptFwd(w, r, v2, "v2", "Option", equalsSide, nil)
 			r.Floor("R-TYPEGUARD", 10)
@@ -231,6 +233,8 @@ func init() {
 			v2 := w.Pkg(pathV2)
 			nt := newNodeTypes(w, v2, "v2")
 			ruleOptFwd(w, r, v2, "v2", "Option", diffSide, nil)
+			ruleNodeCompare(w, r, nt)
+			ruleHashInjective(w, r, nt)
 			ruleCongruence(w, r, nt)
 			ruleHashMove(w, r, nt)
 			ruleHashCover(w, r, nt)
@@ -361,6 +365,7 @@ func init() {
 			ruleCtxIndex(w, r, w.Pkg(pathV2))
 			v2 := w.Pkg(pathV2)
 			ruleOpSubset(w, r, v2)
+			rulePatchSeq(w, r, v2)
 			ruleParent(w, r, v2)
 			rulePtrRead(w, r, v2)
 			rulePtrAgree(w, r, v2)
